@@ -191,6 +191,16 @@ func (e *Engine) VerifyFunc(fc *FuncContract) *FuncResult {
 			}
 		}
 	}
+	// a parameter renamed since the contract was written keeps its recorded name as an alias (by position)
+	if meta := e.localsMeta[fn.String()]; meta != nil && len(meta.Params) == len(fn.Params) {
+		for i, p := range fn.Params {
+			if old := meta.Params[i]; old != p.Name() {
+				if _, clash := c.params[old]; !clash {
+					c.params[old] = c.params[p.Name()]
+				}
+			}
+		}
+	}
 	en := &Env{c: c, vars: map[string]Term{}, cur: c.entry, old: c.entry, pkg: fc.PkgPath}
 	for k, v := range c.params {
 		en.vars[k] = v
@@ -302,6 +312,12 @@ func (e *Engine) VerifyFunc(fc *FuncContract) *FuncResult {
 	}
 	res.Obls = c.obls
 	res.Abstr = c.abstr
+	// vacuity: an at_call clause that matched no call site asserts nothing
+	for _, ac := range fc.AtCalls {
+		if c.atCallSeen[ac.Match+"|"+ac.C.Label] == 0 {
+			c.errorf("at_call %s [%s]: no such call in %s (removed or renamed?)", ac.Match, ac.C.Label, fn.Name())
+		}
+	}
 	res.Errs = c.errs
 	res.Callees = c.callees
 	res.Specs = c.usedSpecs
